@@ -3,7 +3,7 @@
 use super::*;
 use tokio::model::{self, Step, CHUNK_CAP, EMPTY_STEP, MAX_STEPS};
 
-include!("/verif/harness/netconf/framing_common.rs");
+include!("framing_common.rs");
 
 /// Stub for the private grow path of `BytesMut` (realloc + symbolic-size memcpy, which CBMC
 /// cannot digest).  Within the bounds of these harnesses (<= 16 stream bytes, capacity 1024)
